@@ -228,5 +228,7 @@ def run(ctx):
     from .persist import rule_close_writes
     rule_tracked_dump(ctx, r2)
     rule_close_writes(ctx, r2, ("tracked jobs",))
+    from .shared import rule_coroutines_awaited
+    rule_coroutines_awaited(ctx, r2)
     r3 = ctx.rule("R3", "after cancellation the next run is free to resubmit (CANCELLED/FAILED rows of the decision table)")
     rule_decision_table(ctx, r3)
